@@ -39,6 +39,10 @@ def gen_fsel(rng, keys):
     n = len(keys)
     kind = rng.choice(['name', 'names', 'int', 'int', 'list_asc', 'list_asc', 'list_any', 'slice', 'slice', 'slice',
                        'bad_name', 'bad_int', 'neg_int', 'bad_list', 'empty_list'])
+    r2 = random.Random(repr(rng.getstate()[1][:6]) + 'negtail')
+    if kind == 'list_any' and r2.random() < 0.5:
+        # consecutive negative indices up to the last field: [-k, ..., -1]
+        return 'list_neg_tail', list(range(-r2.randint(1, n), 0))
     if kind == 'name':
         return kind, rng.choice(keys)
     if kind == 'names':
